@@ -14,6 +14,9 @@ CLAIMED = {
     "C09": ("Lean 4 theorems over translator-regenerated unit tables (decide +kernel over all unit pairs, lifted to every magnitude in any ordered field) + bit-exact correspondence run",
             "Proof: every clause of the property is a Lean theorem over the conversion tables regenerated from the Rust source on each run (identity, linearity, 0.1% round trip, 0.1% physical factor, create_time/create_speed/create_energy definitions and rejection), for all magnitudes in any linearly ordered field. The constructors' code shape is guarded by the translator and their behaviour tied by a bit-exact differential run on every unit combination.",
             "§5 C09"),
+    "C07": ("Lean 4 theorems about the executable cost model for every cost-model value (any feature count, weights, nested rates, both aggregations, any state pair) over any linearly ordered field + bit-exact correspondence run of the real CostModel (built by CostModel::new over a real StateModel) against the model at IEEE doubles + direct oracle on the real outputs",
+            "Proof: strict positivity of traversal_cost / access_cost and of EdgeTraversal::total_cost (= access + (total - access)), non-negativity of cost_estimate, exact return/none conditions, the sum formula (weights x rated state changes + per-edge / per-turn surcharges; floor exactly when <= 0), linearity in the weights, zero-weight features ignored (and removable under sum), the product formula under mul aggregation, and CostModel::new rejecting exactly zero-sum weights are Lean theorems for all inputs; the floor constant is regenerated from the source each run. The hand-written model is tied to the code by a bit-exact differential run over random configurations (every rate constructor, Combined nested to depth 3, both aggregations, zero/negative/absent weights, all delta signs, lookup hits and misses, short state vectors). f64 rounding is outside the theorems: the oracle reports the one place where it breaks the property (a large access share absorbs the floored total in access + (total - access)).",
+            "§5 C07"),
 }
 
 NOT_YET = {
